@@ -239,3 +239,46 @@ package roundrobin
 //@   ensures empty_pool_reset_iterator: result1 == nil ==> result0 != nil && fresh(result0) && fresh(result0.mutex) && len(result0.servers) == 0 && result0.index == -1 && result0.currentWeight == 0 && result0.next == next && result0.errHandler != nil
 //@   ensures invariants_established: result1 == nil ==> poolOK(result0) && iterOK(result0) && uniq(result0)
 //@   loop 1 invariant rr != nil && fresh(rr) && fresh(rr.mutex) && len(rr.servers) == 0 && rr.index == -1 && rr.currentWeight == 0 && rr.next == next
+
+// ---- options: each sets exactly the named setting to the caller's value (the very object, for sticky sessions:
+// a later SetCookieValue on the caller's StickySession must reach the balancer) -----------------------------------------------
+//@ func EnableStickySession$1
+//@   props C11 C20
+//@   requires s != nil
+//@   modifies s.stickySession
+//@   ensures the_callers_object: s.stickySession == stickySession && result == nil
+//@ func RebalancerStickySession$1
+//@   props C11 C20
+//@   requires r != nil
+//@   modifies r.stickySession
+//@   ensures the_callers_object: r.stickySession == stickySession && result == nil
+//@ func ErrorHandler$1
+//@   props C02 C20
+//@   requires s != nil
+//@   modifies s.errHandler
+//@   ensures set: s.errHandler == h && result == nil
+//@ func RebalancerErrorHandler$1
+//@   props C02 C20
+//@   requires r != nil
+//@   modifies r.errHandler
+//@   ensures set: r.errHandler == h && result == nil
+//@ func RebalancerBackoff$1
+//@   props C10
+//@   requires r != nil
+//@   modifies r.backoffDuration
+//@   ensures set: r.backoffDuration == d && result == nil
+//@ func RebalancerMeter$1
+//@   props C10
+//@   requires r != nil
+//@   modifies r.newMeter
+//@   ensures set: r.newMeter == newMeter && result == nil
+//@ func RoundRobinRequestRewriteListener$1
+//@   props C20
+//@   requires s != nil
+//@   modifies s.requestRewriteListener
+//@   ensures set: s.requestRewriteListener == rrl && result == nil
+//@ func RebalancerRequestRewriteListener$1
+//@   props C20
+//@   requires r != nil
+//@   modifies r.requestRewriteListener
+//@   ensures set: r.requestRewriteListener == rrl && result == nil
